@@ -127,6 +127,10 @@ def cmp_pr(a, b):
 
 def parse_pr_op(op):
     w = op.split()
+    if w[0] == "prn":
+        n = int(w[4])
+        return dict(it=int(w[1]), p=0.0, tk=G.ud(w[3]), vm=0.0, vol=G.ud(w[2]), num=True,
+                    gases=[(G.uhs(w[5 + 2 * i]), G.ud(w[6 + 2 * i])) for i in range(n)])
     n = int(w[5])
     return dict(it=int(w[1]), p=G.ud(w[2]), tk=G.ud(w[3]), vm=G.ud(w[4]),
                 gases=[(G.uhs(w[6 + 2 * i]), G.ud(w[7 + 2 * i])) for i in range(n)])
@@ -167,7 +171,7 @@ def oracle_pr(ctx, pre, op, impl_line):
     w = impl_line.split()
     if w[0] != "R" or len(w) < 4 or len(w[1]) != 16:
         return None
-    vm = G.ud(w[1]) if o["vm"] == 0 else o["vm"]
+    vm = G.ud(w[1]) if (o["vm"] == 0 or o.get("num")) else o["vm"]
     comps = [tuple(G.ud(w[4 + 4 * i + k]) for k in range(4)) for i in range(len(o["gases"]))]
     live = [c for c in comps if c[0] != 0]
     if not live:
@@ -213,8 +217,7 @@ def tie_calc_pr(ctx, exe, ok):
         names, pre, nk = db_consts(exe, db)
         label = db if not isinstance(db, tuple) else f"synthetic({db[2]})"
         n = n_per_db if db == "phreeqc.dat" or isinstance(db, tuple) else n_per_db // 3
-        ops = G.pr_ops(ctx.rng, names, n, hist)
-        ops = [o for i, o in enumerate(ops)]
+        ops = G.pr_ops(ctx.rng, names, n, hist) + G.prn_ops(ctx.rng, names, n // 4, hist)
         htext = db_op(db) + "\n" + "".join(("fresh\n" if i % 7 == 0 else "") + o + "\n" for i, o in enumerate(ops))
         out, err = harness(exe, htext)
         if err:
@@ -233,7 +236,9 @@ def tie_calc_pr(ctx, exe, ok):
         stat_ops = []
         for o in ops:
             w = o.split()
-            if G.ud(w[4]) == 0:
+            if w[0] == "prn":
+                stat_ops.append("prn 0 " + " ".join(w[2:]))
+            elif G.ud(w[4]) == 0:
                 po = parse_pr_op(o)
                 stat_ops.append(eos_line(max(po["p"], 1e-10), po["tk"], 1.0, po["gases"]))
             else:
@@ -243,6 +248,12 @@ def tie_calc_pr(ctx, exe, ok):
             if s.startswith("E ") and len(s.split()) > 4 and s.split()[4].isdigit():
                 b = "cardano_branch_" + s.split()[4]
                 branches[b] = branches.get(b, 0) + 1
+            elif s.startswith("R ") and o.startswith("prn") and len(m.split()) > 1 and len(m.split()[1]) == 16:
+                po = parse_pr_op(o)
+                if rel(G.ud(m.split()[1]), po["vol"] / sum(x for _g, x in po["gases"])) > 1e-9:
+                    branches["numerical_path_vm_doubled"] = branches.get("numerical_path_vm_doubled", 0) + 1
+                if s != m:
+                    branches["numerical_path_search_moved_P"] = branches.get("numerical_path_search_moved_P", 0) + 1
             elif s.startswith("R ") and o.split()[1] != "0":
                 if s != m:
                     branches["search_moved_P"] = branches.get("search_moved_P", 0) + 1
